@@ -146,6 +146,10 @@ func (r *Rec) Scale(q, t int) int {
 	if r.Thorough() {
 		return t
 	}
+	// conf.json "quick_scale": a per-check multiplier of the quick case counts
+	if m, err := strconv.Atoi(os.Getenv("VERIF_QUICK_SCALE")); err == nil && m > 1 && q*m < t {
+		return q * m
+	}
 	return q
 }
 
